@@ -3,7 +3,7 @@ T_ASSUME = 'Trusted: pyvc encoder (tested by canaries/mutants/differential runs)
 
 claim('C01', 'other', 'contract-based deductive verification: VCs generated from the real source by symbolic execution (pyvc), discharged by z3/cvc5; fold induction for n-ary operators; loop invariants for both evaluators over the contract of top_sort; bounded stand-in for the thin wrappers',
       'Unbounded proof that every operator, every GateType constant and every foreign gate table (synthesis codes, arithmetic codes) denotes the one fixed OP(t) for all Boolean arguments and all arities; '
-      'bench conversion and pattern simulation likewise; evaluate_full_circuit AND the stack-based evaluate_circuit are proved to return den for every gate / requested output of every well-formed circuit (loop invariants; top_sort by its contract, proved under C20). The thin wrappers (evaluate, evaluate_at, truth tables) are exercised by the bounded stand-in, so the claim is not `proof`.',
+      'bench conversion and pattern simulation likewise; evaluate_full_circuit AND the stack-based evaluate_circuit are proved to return den for every gate / requested output of every well-formed circuit (loop invariants; top_sort by its contract, proved under C20). The public entry points Circuit.evaluate(inputs) and Circuit.evaluate_at(inputs, j) are proved against the contract of evaluate_circuit: value j is den of output j with input i read from inputs[i]. The truth-table builders (2^n loops) are exercised by the bounded stand-in, so the claim is not `proof`.',
       T_ASSUME + 'Bounded part: circuits with <=2 gates exhaustive, seeded random up to 7 gates.', 'DESIGN.md §6 C01')
 claim('C05', 'other', 'contract-based deductive verification of the Tseytin transformation: templates (loop invariants over a CNF view), both loops of tseytin_transformation by invariants and the memoised recursion process_gate by its contract on an arbitrary circuit; bounded brute force for whole circuits',
       'Every _process_* template is proved equivalent to top = OP(t)(lits) for all literals (and/nand/or/nor for every arity by loop invariant, xor/nxor for arities 2..5). tseytin_transformation is proved on an ARBITRARY well-formed circuit and any selection of outputs '
